@@ -82,7 +82,7 @@ RsFull ==
   {Rfa(1, hv, 1, FALSE, <<>>) : hv \in {"t", "u", "short", "nonhex"}} \cup
   {Rfa(2, "n", k, TRUE, o) : k \in {1, 5}, o \in {<<>>, <<"ok", "flip">>, <<"flip">>}} \cup
   {[op |-> "rc", k |-> k, ks |-> FALSE, outs |-> o] : k \in {1, 3, 4, 9}, o \in {<<>>, <<"short">>, <<"e503">>}} \cup
-  {[op |-> "rm", reqs |-> q, ks |-> FALSE, outs |-> o] : q \in {<<>>, <<Q(1, TRUE, -1), Q(4, TRUE, -1)>>, <<Q(1, FALSE, -1), Q(9, TRUE, -1)>>},
+  {[op |-> "rm", reqs |-> q, ks |-> FALSE, outs |-> o] : q \in {<<>>, <<Q(1, TRUE, -1), Q(4, TRUE, -1)>>, <<Q(1, FALSE, -1), Q(9, TRUE, -1)>>, <<Q(4, TRUE, 999)>>},
                                                          o \in {<<>>, <<"ok", "e503">>}} \cup
   {Pl(as, "none", o) : as \in {<<It(1, "n")>>, <<It(1, "n"), It(2, "n")>>, <<It(1, "n"), It(1, "n")>>, <<It(1, "t")>>, <<It(1, "short"), It(2, "n")>>, <<>>},
                        o \in {<<>>, <<"e503">>, <<"junk", "ok">>}} \cup
